@@ -2,6 +2,7 @@
 Model/C05Channels.v vs Spec/C05Spec.v; JSON scalars vs the regenerated YAML resolver tables."""
 import json
 import math
+import re
 import sys
 
 from tie import framework as fw
@@ -31,7 +32,9 @@ RULE = ("one case = one logical setting for one key: a type hint from the gramma
         "parsers, first in a clean context, then after an earlier parse_args of another parser: 1-4 accepted options followed "
         "by a rejected --cfg (wrong type, unparsable, unknown class; string or file), an accepted --cfg, accepted-then-"
         "rejected, a rejected option, options after it; each case runs in its own contextvars.copy_context(). "
-        "Sub-command family (50 quick / 150 thorough): a parser with 2-3 sub-commands, one top-level key and 1-3 keys of the "
+        "Dict[str, T] settings with identifier keys are also given entry by entry on the command line (--key.k=TEXT ..., "
+        "both forms); the look-alike strings now include values with = : # , (app=web, a=b=c, URL query strings, base64 "
+        "padding, k=v,x=y). Sub-command family (50 quick / 150 thorough): a parser with 2-3 sub-commands, one top-level key and 1-3 keys of the "
         "chosen sub-command (not necessarily the first) with types from a tame set (scalars, Optional, List, Dict, Tuple, Set, "
         "Enum; values every channel accepts); dotted options, parse_object, parse_env(MAPPING) with the variables absent from "
         "os.environ, os.environ + parse_args(env=True), parse_string, parse_path, --cfg FILE/STRING, PREFIX_CFG, "
@@ -65,9 +68,12 @@ ASSUMPTIONS = [
     "sub-command family: the sub-command is named explicitly in every channel (choosing it is C17's); a key of a sub-command is "
     "modelled by the same per-key pipeline as a top-level key (the extra type-check passes of the sub-parser are absorbed by "
     "the fixed-point guard; the family keeps to types whose check is idempotent)",
+    "entry-by-entry command line: only for a top-level Dict[str, T] hint, starting from the default None, option spelled with "
+    "its destination name (below an option declared with hyphens jsonargparse recognises only --my_key.k, not --my-key.k: "
+    "seen, not triaged); nested keys below class-typed options (init_args) are not generated",
     "the text '--' is not used as a value (argparse removes it) and bare NoneType is not used as a type hint",
 ]
-FINDING_CLASSES = {1: "none-unchecked", 3: "literal-eq-channels", 4: "jsonnet-numbers"}   # 2 (clash-key-unadapted) repaired
+FINDING_CLASSES = {1: "none-unchecked", 3: "literal-eq-channels", 4: "jsonnet-numbers", 7: "nested-item-no-string-fallback"}   # 2 (clash-key-unadapted) repaired
 # When fixes/C05-clash-key-unadapted.patch is applied in /repo:  JUDGE = "judge_fixed"  and drop class 2 above.
 JUDGE = "judge_fixed"   # /repo 0aaec05 (clash-key-unadapted repaired)
 
@@ -148,7 +154,8 @@ LOOKALIKES = ["true", "false", "null", "True", "NULL", "yes", "no", "on", "off",
               "-x", "+1", "=", "<<", "a: b", "a:", "[1, 2]", "[a", "{a: 1}", '{"a": 1}', "{a", "a, b", "a b", " lead", "trail ",
               "", " ", "'q'", '"q"', "a#b", "a #b", "#c", "@x", "`y", "%z", "&a", "*a", "!t", "|", ">", "?", "? a", "- a", "-a",
               "a\nb", "tab\tx", "été", "☃", "2024-01-01", "12:30:00", "1+1", "${x}", "${oc.env:HOME}", "$x",
-              "std.thisFile", "a.b", "a=b", "x,y", "None", "none", "NaN", "Infinity", "0.1", "-0", "-0.0", "1 2"]
+              "std.thisFile", "a.b", "a=b", "app=web", "a=b=c", "http://h/q?a=1&b=2", "dGVzdA==", "k=v,x=y", "=x", "x=", "a:b", "x#y",
+              "p, q", "key: a=b", "x,y", "None", "none", "NaN", "Infinity", "0.1", "-0", "-0.0", "1 2"]
 WORDS = ["a", "b", "abc", "x_y", "k1", "Hello", "zed"]
 KEYS = [["k"], ["my_key"], ["g", "k"], ["g", "my_key"], ["a", "b", "c"], ["grp_x", "sub", "leaf_key"], ["items"], ["g", "values"]]
 PREFIXES = ["APP", "my-app", True, False]
@@ -365,7 +372,11 @@ def make_case(rng, t, v, modes=None, key=None):
     modes = list(modes or MODES)
     if "omegaconf" in modes and any("${" in x for x in strings_in(v)):
         modes.remove("omegaconf")   # ${...} is OmegaConf's interpolation syntax, not a plain string there
-    return {"ty": t, "key": key, "hyphen": rng.random() < 0.3 and any("_" in k for k in key), "prefix": rng.choice(PREFIXES),
+    items = None
+    if t[0] == "dict" and t[1] is False and isinstance(v, dict) and v.get("d") and \
+            all(re.fullmatch(r"[A-Za-z_][A-Za-z0-9_]*", k) for k, _ in v["d"]) and not CLASH & {k for k, _ in v["d"]}:
+        items = [[k, top_text(x)] for k, x in v["d"]]
+    return {"items": items, "ty": t, "key": key, "hyphen": rng.random() < 0.3 and any("_" in k for k in key), "prefix": rng.choice(PREFIXES),
             "val": v, "text": top_text(v), "docs": make_docs(key, v), "modes": modes}
 
 
@@ -377,6 +388,7 @@ def known_cases(rng):
         "none-unchecked": make_case(rng, ["int"], None, modes=["yaml"], key=["k"]),
         "literal-eq-channels": make_case(rng, ["lit", [1, 2]], True, modes=["yaml"], key=["k"]),
         "jsonnet-numbers": make_case(rng, ["list", ["int"]], {"l": [big]}, modes=["yaml", "jsonnet"], key=["k"]),
+        "nested-item-no-string-fallback": make_case(rng, ["dict", False, ["str"]], {"d": [["k", "null"]]}, modes=["yaml"], key=["labels"]),
     }
 
 
@@ -630,7 +642,7 @@ def g_obs(o):
     return "Crashed"
 
 
-CHANNELS = {"argv_eq": "ChArgv", "argv_sp": "ChArgv", "env": "ChEnv", "env_args": "ChEnv", "object_nested": "ChObject",
+CHANNELS = {"argv_eq": "ChArgv", "argv_sp": "ChArgv", "argv_nested_eq": "ChArgv", "argv_nested_sp": "ChArgv", "env": "ChEnv", "env_args": "ChEnv", "object_nested": "ChObject",
             "object_dotted": "ChObject", "string": "ChDoc", "path": "ChDoc", "cfgfile": "ChDoc", "cfgstr": "ChDoc",
             "default_config": "ChDoc", "cfgenv": "ChCfgEnv"}
 
@@ -645,10 +657,11 @@ def observations(obs):
         ch, _, doc = rest.partition(":")
         ch = ch.replace("@after", "")
         loaded = obs["loaded"].get(mode + "/" + doc) if doc else None
-        item = (mode == "yaml", CHANNELS[ch], json.dumps(loaded), json.dumps(oc))
+        nested = ch.startswith("argv_nested")
+        item = (mode == "yaml", CHANNELS[ch], json.dumps(loaded), json.dumps(oc), nested)
         if item not in seen:
             seen.add(item)
-            out.append((mode == "yaml", CHANNELS[ch], loaded, oc))
+            out.append((mode == "yaml", CHANNELS[ch], loaded, oc, nested))
     return out
 
 
@@ -688,12 +701,14 @@ def term(case, obs):
 
 
 def term_setting(case, obs):
-    obl = ["{| o_yaml := %s; o_chan := %s; o_loaded := %s; o_obs := %s |}"
-           % (g_bool(y), ch, "None" if ld is None else "(Some %s)" % g_lres(ld), g_obs(oc)) for y, ch, ld, oc in observations(obs)]
+    obl = ["{| o_yaml := %s; o_chan := %s; o_loaded := %s; o_nested := %s; o_obs := %s |}"
+           % (g_bool(y), ch, "None" if ld is None else "(Some %s)" % g_lres(ld), g_bool(nd), g_obs(oc))
+           for y, ch, ld, oc, nd in observations(obs)]
+    items = g_list([g_pair(g_str(k), g_str(t)) for k, t in (case.get("items") or [])], "(str * str)")
     oracle = [g_pair(g_str(s), g_lres(a)) for s, a in obs["oracle"]]
-    return ("{| c_ty := %s; c_val := %s; c_text := %s; c_clash := %s; c_jsonnet := %s; c_json_num := %d%%N; c_oracle := %s; c_obs := %s |}"
+    return ("{| c_ty := %s; c_val := %s; c_text := %s; c_clash := %s; c_jsonnet := %s; c_items := %s; c_json_num := %d%%N; c_oracle := %s; c_obs := %s |}"
             % (g_ty(case["ty"]), g_val(case["val"]), g_str(case["text"]), g_bool(obs["clash"]),
-               g_bool(any(n.startswith("jsonnet/") for n in obs["chan"])), json_num_class(case["text"]), g_list(oracle, "(str * lres)"), g_list(obl, "ob")))
+               g_bool(any(n.startswith("jsonnet/") for n in obs["chan"])), items, json_num_class(case["text"]), g_list(oracle, "(str * lres)"), g_list(obl, "ob")))
 
 
 # ---------------------------------------------------------------------------------------------------------------------
@@ -786,6 +801,8 @@ def shrink(case):
         c = dict(c)
         c["text"] = top_text(c["val"])
         c["docs"] = make_docs(c["key"], c["val"])
+        if c.get("items"):
+            c["items"] = [[k, top_text(x)] for k, x in c["val"].get("d", [])] or None
         return c
 
     if len(case["modes"]) > 1:
